@@ -192,8 +192,11 @@ class LiteralEvaluator:
 		return ''
 
 	def on_func_call(self, node: defs.FuncCall, calls: Evaluator.Value, arguments: list[Evaluator.Value]) -> Evaluator.Value:
-		# スカラー型のキャストのみ許可
+		# スカラー型のキャストのみ許可 ※基数指定等の追加引数・キーワード引数は値が変化するため非対応
 		org_calls = node.calls.tokens
+		if len(arguments) != 1 or not node.arguments[0].label.is_a(defs.Empty) or node.arguments[0].unpacking:
+			raise Errors.OperationNotAllowed(node, calls, arguments)
+
 		if org_calls == 'int':
 			if isinstance(arguments[0], str):
 				return int(arguments[0][1:-1])
@@ -208,6 +211,9 @@ class LiteralEvaluator:
 			# 文字列リテラルのstrへのキャストは値が変化しない ※再度引用符で囲うと引用符を含む別の値になってしまう
 			if isinstance(arguments[0], str) and self._allow_string(arguments[0]):
 				return arguments[0]
+			elif isinstance(arguments[0], str):
+				# 三連引用符・接頭辞付きのリテラルは再度引用符で囲うと別の値になってしまうため非対応
+				raise Errors.OperationNotAllowed(node, calls, arguments)
 
 			return f'"{str(arguments[0])}"'
 
